@@ -1,12 +1,30 @@
 import NetaddrVerif.Model.Proto
 import NetaddrVerif.Model.AddrParse
+import NetaddrVerif.Model.AddrRaw
 /-! Driver ops of property C01 and of the modelled platform text functions.
     `aton S` · `pton4 S` · `pton6 S` · `ntop6 V` (platform);
     `ip_parse be S ver flags` · `ip_print be F V dialect` · `valid4 be S flags` · `valid6 be S` ·
     `fb_pton F S` · `fb_ntop F V` · `ip_repr be F V` (repr + parse of its quoted part) ·
-    `zf_rewrite S` (the ZEROFILL rewrite `'.'.join('%d' % int(p) for p in S.split('.'))`). -/
+    `zf_rewrite S` (the ZEROFILL rewrite `'.'.join('%d' % int(p) for p in S.split('.'))`).
+    Raw-exception model (Model/AddrRaw.lean, platform `std`): `valid4` / `valid6` run the separate
+    transcriptions `validStr4Raw` / `validStr6Raw`; `ip_parse_raw be4 be6 S ver flags`
+    (`ipAddressRaw`, the two back-end switches apart, exception class as raised);
+    `s2i_raw F be S flags` (`strategy.ipv4/ipv6.str_to_int`); `raw_call fn be S` with fn in
+    aton | pton4 | pton6 | int (the platform calls themselves: value, `!exception` or `!base`);
+    `ip_format be6 F V D` (`IPAddress.format`, D = - | compact | full | verbose | nowf | wfonly). -/
 namespace NV.Driver.C01
-open NV NV.Proto NV.AddrParse
+open NV NV.Proto NV.AddrParse NV.AddrRaw
+
+def showExn (e : Exn) : String := "!" ++ e.tag
+
+def parseFmtArg : String → Option FmtArg
+  | "-" => some .none
+  | "compact" => some (.dialect .compact)
+  | "full" => some (.dialect .full)
+  | "verbose" => some (.dialect .verbose)
+  | "nowf" => some .noWordFmt
+  | "wfonly" => some .wordFmtOnly
+  | _ => none
 
 def parseBe : String → Option Backend
   | "pl" => some .platform
@@ -51,13 +69,45 @@ def handle (op : String) (args : List String) : Option String :=
       pure (showStr (if f = 4 then Text4.ntoa v else intToStr6 be d v))
   | "valid4", [be, s, flags] => do
     let be ← parseBe be; let s ← parseStr s; let flags ← flags.toNat?
-    match validStr4 be s flags with
+    match validStr4Raw std be s flags with
     | .ok b => pure (showBool b)
-    | .error e => pure (showErr e)
+    | .error e => pure (showExn e)
   | "valid6", [be, s] => do
     let be ← parseBe be; let s ← parseStr s
-    match validStr6 be s with
+    match validStr6Raw std be s with
     | .ok b => pure (showBool b)
+    | .error e => pure (showExn e)
+  | "ip_parse_raw", [be4, be6, s, ver, flags] => do
+    let be4 ← parseBe be4; let be6 ← parseBe be6
+    let s ← parseStr s; let ver ← parseOptNat ver; let flags ← flags.toNat?
+    match ipAddressRaw std be4 be6 s ver flags with
+    | .ok a => pure s!"{a.ver} {a.val}"
+    | .error e => pure (showExn e)
+  | "s2i_raw", [f, be, s, flags] => do
+    let f ← f.toNat?; let be ← parseBe be; let s ← parseStr s; let flags ← flags.toNat?
+    match (if f = 4 then strToInt4Raw std be s flags else strToInt6Raw std be s flags) with
+    | .ok v => pure (toString v)
+    | .error e => pure (showExn e)
+  | "raw_call", [fn, be, s] => do
+    let be ← parseBe be; let s ← parseStr s
+    -- which class the platform raises is not reported, only whether it is below `Exception`
+    -- (what `RawPlatform.Sane` asks)
+    let showK : Exn → String := fun e => if e.isException then "!exception" else "!base"
+    let showX : X Nat → String := fun r => match r with
+      | .ok v => toString v
+      | .error e => showK e
+    match fn with
+    | "aton" => pure (showX (std.aton s))
+    | "pton4" => pure (showX (std.pton4 be s))
+    | "pton6" => pure (showX (std.pton6 be s))
+    | "int" => (match std.pyInt s with
+      | .ok i => pure (toString i)
+      | .error e => pure (showK e))
+    | _ => none
+  | "ip_format", [be6, f, v, d] => do
+    let be6 ← parseBe be6; let f ← f.toNat?; let v ← v.toNat?; let d ← parseFmtArg d
+    match ipFormat be6 ⟨f, v⟩ d with
+    | .ok t => pure (showStr t)
     | .error e => pure (showErr e)
   | "ip_repr", [be, f, v] => do
     let be ← parseBe be; let f ← f.toNat?; let v ← v.toNat?
